@@ -888,6 +888,15 @@ func (ch c16) Run(c *core.Ctx) {
 		cl.C.WaitClosed()
 		<-env.ServeErr
 	}
+	// the application gives every connection a context of its own (session middleware or authentication
+	// strategy) and ends it - a per-session deadline passes, the application logs the user out - while a
+	// statement of that connection is still running: Close waits for the handler, not for the context
+	for v := 0; v < 3; v++ {
+		if !c.Begin(70030+v) || c.NViol() >= 10 {
+			continue
+		}
+		ch.sessionContextEnds(c, v)
+	}
 	// the accept loop ends before Close for a reason of its own (Accept fails; the listener's owner
 	// closes it): Close afterwards still returns, repeated Close calls too
 	for v := 0; v < 2; v++ {
@@ -954,4 +963,91 @@ func (ch c16) Run(c *core.Ctx) {
 		}
 		ch.runStress(c, r)
 	}
+}
+
+func (ch c16) sessionContextEnds(c *core.Ctx, variant int) {
+	cs := map[string]any{"session_context_variant": variant}
+	e := &c16env{entered: make(chan string, 8), gateStmt: make(chan struct{}), gateParser: make(chan struct{})}
+	var end atomic.Pointer[context.CancelCauseFunc]
+	derive := func(ctx context.Context) context.Context {
+		ctx, cancel := context.WithCancelCause(ctx)
+		end.Store(&cancel)
+		return ctx
+	}
+	opts := []wire.OptionFn{wire.SessionMiddleware(func(ctx context.Context) (context.Context, error) { return derive(ctx), nil })}
+	if variant == 2 {
+		opts = []wire.OptionFn{wire.SessionAuthStrategy(wire.ClearTextPassword(func(ctx context.Context, db, user, pw string) (context.Context, bool, error) {
+			return derive(ctx), true, nil
+		}))}
+	}
+	env := hs.Start(ch.parseFn(e), opts...)
+	cl := hs.NewClient(env.Dial(nil))
+	if variant == 2 {
+		cl.Step(pg.Startup([][2]string{{"user", "u"}}))
+		cl.Step(pg.Password("pw"))
+	} else if err := cl.StartupOK("u"); err != nil {
+		c.Violate("startup", "startup failed", err.Error(), cs)
+		return
+	}
+	where := "stmt"
+	if variant == 1 {
+		where = "parser"
+		cl.C.Send(pg.Query("gateparser session context"))
+	} else {
+		cl.C.Send(pg.Query("gatestmt session context"))
+	}
+	select {
+	case got := <-e.entered:
+		if got != where {
+			c.Inconclusive("session-context scenario: entered " + got + " instead of " + where)
+			return
+		}
+	case <-time.After(40 * time.Second):
+		c.Inconclusive("session-context scenario: the handler was never entered")
+		return
+	}
+	if cancel := end.Load(); cancel != nil {
+		(*cancel)(errors.New("session ended by the application"))
+		c.Count("session_contexts_ended_while_a_handler_runs", 1)
+	} else {
+		c.Inconclusive("session-context scenario: the connection's context was never derived")
+		return
+	}
+	closed := make(chan struct{})
+	go func() { env.Srv.Close(); e.closeReturned.Store(true); close(closed) }()
+	select {
+	case <-closed: // (a Close that does not wait is seen by the handler below)
+	case <-time.After(25 * c16settle):
+	}
+	if where == "parser" {
+		close(e.gateParser)
+	} else {
+		close(e.gateStmt)
+	}
+	select {
+	case <-closed:
+	case <-time.After(40 * time.Second):
+		dump, lib := core.ClassifyHang()
+		if len(lib) > 0 {
+			c.Violate("deadlock", "Close never returns after the session's context had ended: "+strings.Join(lib, "; "), trim(dump, 3000), cs)
+		} else {
+			c.Inconclusive("Close watchdog fired (session context ended) without a library-blocked goroutine")
+		}
+		c.Finish()
+		return
+	}
+	for i := 0; i < 200 && e.running.Load() > 0; i++ {
+		time.Sleep(time.Millisecond)
+	}
+	if v := e.viol.Load(); v != nil {
+		c.Violate("close-early", "Close returned before a handler whose session context had ended was finished", *v, cs)
+	}
+	cl.C.CloseWrite()
+	cl.C.WaitClosed()
+	select {
+	case <-env.ServeErr:
+	case <-time.After(40 * time.Second):
+		c.Violate("serve-hang", "Serve did not return after Close", "", cs)
+	}
+	c.Eval(fmt.Sprintf("session context ends %d", variant), true)
 }
